@@ -120,7 +120,7 @@ class FetchHandle(Contract):
 
         f = F(ctx)
         e = entity(ctx, ctx.case)
-        ctx.assume(e.attrs["name"].e != f.proj_name)
+        # no assumption on the entity's name: an entity may be called like the project group
         ctx.env.update(f=f, e=e)
         return [H5Writer, f.file, e], {}
 
